@@ -103,6 +103,43 @@ impl<R> Drop for NotifyOnDrop<R> {
     }
 }
 
+/// Wraps the reader of a chunked request body. When dropped before the end of the body
+/// has been reached, the rest of the body is read and thrown away, so that the next
+/// request on the connection is parsed from the first byte after this body.
+struct DiscardOnDrop<R: Read> {
+    inner: R,
+    finished: bool,
+}
+
+impl<R: Read> Read for DiscardOnDrop<R> {
+    fn read(&mut self, buf: &mut [u8]) -> io::Result<usize> {
+        match self.inner.read(buf) {
+            Ok(0) if !buf.is_empty() => {
+                self.finished = true;
+                Ok(0)
+            }
+            Ok(n) => Ok(n),
+            Err(e) => {
+                // the framing is lost, there is nothing sensible left to discard
+                self.finished = true;
+                Err(e)
+            }
+        }
+    }
+}
+
+impl<R: Read> Drop for DiscardOnDrop<R> {
+    fn drop(&mut self) {
+        let mut buf = [0; 1024];
+        while !self.finished {
+            match self.inner.read(&mut buf) {
+                Ok(0) | Err(_) => self.finished = true,
+                Ok(_) => (),
+            }
+        }
+    }
+}
+
 /// Error that can happen when building a `Request` object.
 #[derive(Debug)]
 pub enum RequestCreationError {
@@ -238,7 +275,10 @@ where
     } else if transfer_encoding.is_some() {
         // if a transfer-encoding was specified, then "chunked" is ALWAYS applied
         // over the message (RFC2616 #3.6)
-        Box::new(FusedReader::new(Decoder::new(source_data))) as Box<dyn Read + Send + 'static>
+        Box::new(FusedReader::new(DiscardOnDrop {
+            inner: Decoder::new(source_data),
+            finished: false,
+        })) as Box<dyn Read + Send + 'static>
     } else {
         // if we have neither a Content-Length nor a Transfer-Encoding,
         // assuming that we have no data
